@@ -540,61 +540,76 @@ package parser
 //@ spec lcRes(k int) token.LnColPos = callres((*PosCache).LnCol, k, 0)
 
 //@ func (*parser).newBoolLiteral
-//@ props C17
+//@ props C05 C17
 //@ ensures[C17] lcN() == 1 && lcArg(0) == pos && result != nil && result.NodeType == ast.TypeBoolLiteral && result.elem.(*ast.BoolLiteral).Start == lcRes(0)
 //@ func (*parser).newNilLiteral
-//@ props C17
+//@ props C05 C17
 //@ ensures[C17] lcN() == 1 && lcArg(0) == pos && result != nil && result.NodeType == ast.TypeNilLiteral && result.elem.(*ast.NilLiteral).Start == lcRes(0)
 //@ func (*parser).newIdentifierLiteral
-//@ props C17
+//@ props C05 C17
 //@ ensures[C17] lcN() == 1 && lcArg(0) == name.Pos && result != nil && result.NodeType == ast.TypeIdentifier && result.elem.(*ast.Identifier).Start == lcRes(0)
 //@ func (*parser).newStringLiteral
-//@ props C17
+//@ props C05 C17
 //@ ensures[C17] lcN() == 1 && lcArg(0) == val.Pos && result.elem.(*ast.StringLiteral).Start == lcRes(0)
 //@ func (*parser).newParenExpr
-//@ props C17
+//@ props C05 C17
 //@ ensures[C17] lcN() == 2 && lcArg(0) == lParen.Pos && lcArg(1) == rParen.Pos && result != nil && result.NodeType == ast.TypeParenExpr && result.elem.(*ast.ParenExpr).LParen == lcRes(0) && result.elem.(*ast.ParenExpr).RParen == lcRes(1)
 //@ func (*parser).newListLiteralStart
-//@ props C17
+//@ props C05 C17
 //@ ensures[C17] lcN() == 1 && lcArg(0) == pos && result != nil && result.NodeType == ast.TypeListLiteral && result.elem.(*ast.ListLiteral).LBracket == lcRes(0)
 //@ func (*parser).newListLiteralEnd
-//@ props C17
+//@ props C05 C17
 //@ ensures[C17] initExpr != nil && initExpr.NodeType == ast.TypeListLiteral ==> lcN() == 1 && lcArg(0) == pos && result == initExpr && initExpr.elem.(*ast.ListLiteral).RBracket == lcRes(0) && initExpr.elem.(*ast.ListLiteral).LBracket == old(initExpr.elem.(*ast.ListLiteral).LBracket)
 //@ func (*parser).newMapLiteralStart
-//@ props C17
+//@ props C05 C17
 //@ ensures[C17] lcN() == 1 && lcArg(0) == pos && result != nil && result.NodeType == ast.TypeMapLiteral && result.elem.(*ast.MapLiteral).LBrace == lcRes(0)
 //@ func (*parser).newMapLiteralEnd
-//@ props C17
+//@ props C05 C17
 //@ ensures[C17] initExpr != nil && initExpr.NodeType == ast.TypeMapLiteral ==> lcN() == 1 && lcArg(0) == pos && result == initExpr && initExpr.elem.(*ast.MapLiteral).RBrace == lcRes(0) && initExpr.elem.(*ast.MapLiteral).LBrace == old(initExpr.elem.(*ast.MapLiteral).LBrace)
 //@ func (*parser).newNumberLiteral
-//@ props C17
+//@ props C05 C17
 //@ ensures[C17] result != nil ==> lcN() == 1 && lcArg(0) == v.Pos
 //@ ensures[C17] result != nil && result.NodeType == ast.TypeIntegerLiteral ==> result.elem.(*ast.IntegerLiteral).Start == lcRes(0)
 //@ ensures[C17] result != nil && result.NodeType == ast.TypeFloatLiteral ==> result.elem.(*ast.FloatLiteral).Start == lcRes(0)
 //@ func (*parser).newBlockStmt
-//@ props C17
+//@ props C05 C17
 //@ ensures[C17] lcN() == 2 && lcArg(0) == lBrace.Pos && lcArg(1) == rBrace.Pos && result != nil && result.LBracePos == lcRes(0) && result.RBracePos == lcRes(1)
 //@ func (*parser).newBreakStmt
-//@ props C17
+//@ props C05 C17
 //@ ensures[C17] lcN() == 1 && lcArg(0) == pos && result != nil && result.NodeType == ast.TypeBreakStmt && result.elem.(*ast.BreakStmt).Start == lcRes(0)
 //@ func (*parser).newContinueStmt
-//@ props C17
+//@ props C05 C17
 //@ ensures[C17] lcN() == 1 && lcArg(0) == pos && result != nil && result.NodeType == ast.TypeContinueStmt && result.elem.(*ast.ContinueStmt).Start == lcRes(0)
 //@ func (*parser).newConditionalExpr
-//@ props C17
+//@ props C05 C17
 //@ ensures[C17] lcN() == 1 && lcArg(0) == op.Pos && result != nil && result.NodeType == ast.TypeConditionalExpr && result.elem.(*ast.ConditionalExpr).OpPos == lcRes(0)
 //@ func (*parser).newInExpr
-//@ props C17
+//@ props C05 C17
 //@ ensures[C17] lcN() == 1 && lcArg(0) == inOp.Pos && result != nil && result.NodeType == ast.TypeInExpr && result.elem.(*ast.InExpr).OpPos == lcRes(0)
 //@ func (*parser).newAssignmentStmt
-//@ props C17
+//@ props C05 C17
 //@ ensures[C17] lcN() == 1 && lcArg(0) == op.Pos && result != nil && result.NodeType == ast.TypeAssignmentExpr && result.elem.(*ast.AssignmentExpr).OpPos == lcRes(0)
 //@ func (*parser).newArithmeticExpr
-//@ props C17
+//@ props C05 C17
 //@ ensures[C17] result != nil ==> lcN() == 1 && lcArg(0) == op.Pos && result.NodeType == ast.TypeArithmeticExpr && result.elem.(*ast.ArithmeticExpr).OpPos == lcRes(0)
 //@ func (*parser).newIfElem
-//@ props C17
+//@ props C05 C17
 //@ ensures[C17] result != nil ==> lcN() == 1 && lcArg(0) == ifTk.Pos && result.Start == lcRes(0)
 //@ func (*parser).newCallExpr
-//@ props C17
+//@ props C05 C17
 //@ ensures[C17] result != nil ==> lcN() == 2 && lcArg(0) == lParen.Pos && lcArg(1) == rParen.Pos && result.NodeType == ast.TypeCallExpr && result.elem.(*ast.CallExpr).LParen == lcRes(0) && result.elem.(*ast.CallExpr).RParen == lcRes(1)
+
+// ---- C16 / C15: what the hand-written part of the parser writes -----------------------------------
+// On objects that existed before the call: the parser object itself (with its lexer, position cache,
+// error list and pending item), the item slot it was handed, and the literal / list / map nodes the
+// grammar actions extend in place.  Never a package-level variable (the keyword and operator tables
+// are only read), so concurrent parses that own their parser share nothing they write.  The generated
+// driver (yy*) is outside the sweep.
+//@ frame parseWrites = alltype(parser), alltype(Lexer), alltype(Item), alltype(yySymType), alltype(yyParserImpl), elemsof(ParseError), elemsof(yySymType),
+//@ | alltype(token.PosCache), elemsof(int), elemsof(byte), elemsof(any),
+//@ | alltype(ast.ListLiteral), alltype(ast.MapLiteral), alltype(ast.IntegerLiteral), alltype(ast.FloatLiteral), alltype(ast.IndexExpr), elemsof(*ast.Node), elemsof([2]*ast.Node), elemsof(token.LnColPos)
+// outside the sweep: the generated driver, the entry point that owns the pool (ParsePipeline), the panic
+// handler (it writes the caller's error variable), the logger setter InitLog (called before any parse),
+// package initialisation, and the message formatters (fmt calls over boxed values; they write nothing
+// but their own buffers, which the frame language cannot name)
+//@ framesweep[C16,C15] parseWrites * -init -init#1 -yy* -(*yyParserImpl).* -ParsePipeline -(*parser).recover -InitLog -(Item).* -(ItemType).* -(ParseErrors).Error -(*ParseError).Error -(*parser).unexpected -(PositionRange).String
